@@ -106,6 +106,9 @@ func RunE1(c *Ctx, prop string, obs []Ob) {
 			continue
 		}
 		obs = append(obs, Ob{ID: "E1.guarantee", Fn: g.Fn, P: g.P, Kind: "ret ok", Req: req, Why: "callers assume these facts on the success edge of " + g.Fn})
+		if len(g.FailProof) > 0 {
+			obs = append(obs, Ob{ID: "E1.guarantee.fail", Fn: g.Fn, P: g.P, Kind: "ret fail", Req: g.FailProof, Why: "callers assume these facts on the failure edge of " + g.Fn})
+		}
 	}
 	obs = append(obs, leafObs(prop)...)
 	obs = append(obs, e1Controls()...)
@@ -438,7 +441,7 @@ func rebindable(t types.Type) bool {
 func expandReturned(st *fstate, t *Term) *Term {
 	vals := map[string]*Term{}
 	for _, fc := range st.facts {
-		if fc.S == "eq" && len(fc.A) == 2 && (fc.A[0].K == "call" || fc.A[0].K == "mcall") && fc.A[1].K != "call" && fc.A[1].K != "mcall" {
+		if fc.S == "eq" && len(fc.A) == 2 && (fc.A[0].K == "call" || fc.A[0].K == "mcall") && !mentionsTerm(fc.A[1], fc.A[0]) {
 			vals[fc.A[0].Key()] = fc.A[1]
 		}
 	}
